@@ -26,11 +26,22 @@ def run(arg, tier, seed, work, repo):
            "inconclusive": [], "hard_failures": [], "notes": [], "kani_harnesses": 1, "kani_checks": 0}
     cmd = ["cargo", "kani", "--target-dir", os.path.join(work, "target-kani-" + arg), "-Z", "stubbing", "--harness", name]
     dim = None
+    feats = []
     if dimf and tier == "quick":
         dim = 1 + (seed + 2) % 6
-        cmd += ["--features", "dim_%d" % dim]
+        feats.append("dim_%d" % dim)
+    wsel = None
+    if arg in ("C03table", "C04"):
+        # symbolic weights make the formula equalities intractable for CBMC (no result in 50 min):
+        # the weights are concretised from the seed, everything else stays symbolic
+        feats.append("concrete_w")
+        wsel = seed % 6
+    if feats:
+        cmd += ["--features", ",".join(feats)]
     cap = 1500 if tier == "quick" else 5400
     env = dict(os.environ, CARGO_NET_OFFLINE="true")
+    if wsel is not None:
+        env["KANI_W"] = str(wsel)
     try:
         r = subprocess.run(["timeout", str(cap)] + cmd, cwd=os.path.join(os.path.dirname(os.path.dirname(os.path.abspath(__file__))), "kani-harness"),
                            env=env, stdout=subprocess.PIPE, stderr=subprocess.STDOUT, text=True)
@@ -65,8 +76,8 @@ def run(arg, tier, seed, work, repo):
     res["stubs"] = STUBS if arg in ("C05", "C03table", "C04") else (["momtrop::gamma::inverse_gamma_lr_impl -> kani::any::<f64>()"] if arg == "C12wrapper" else ["momtrop::verif::TropicalGraph::get_loop_number -> 0"])
     res["bounds"] = {
         "C05": "E = 2 edges, every assignment of loop numbers (<= 2) and spanning flags to the 4 subsets, weights in [1/8, 8], any mass pattern and vertex labels, D = %s; unwind 6 with unwinding assertions" % (dim if dim else "1..6 symbolic"),
-        "C03table": "as C05",
-        "C04": "as C05",
+        "C03table": "E = 2, every assignment of loop numbers/flags, masses, labels; weights concretised (table entry %s of 6, from VERIF_SEED), D = %s" % (wsel, dim if dim else "1..6 symbolic"),
+        "C04": "E = 2, every assignment of loop numbers/flags; weights concretised (table entry %s of 6), D = %s" % (wsel, dim if dim else "1..6 symbolic"),
         "C03ids": "num_edges 1..6 symbolic, any edge index; unwind 8 with unwinding assertions",
         "C12wrapper": "every f64 a, p, eps and every f64 kernel result",
     }[arg]
